@@ -811,6 +811,8 @@ pub fn run_plan(plan: &SchedPlan, shared: &Shared, ref_shared: &Shared, refs: &m
             let mut o = op.clone();
             o.a[0] = 0;
             hist.entry(obj).or_default().push(o.key());
+        } else if kind.ends_with("pre3_reuse") || kind.ends_with("pre256_reuse") {
+            hist.entry(format!("g{}/{}buf{}", g, if kind.ends_with("pre3_reuse") { "tbl3" } else { "tbl256" }, t)).or_default().push(op.key());
         } else if kind.ends_with("wnaf_raw") && op.arg(3) % 2 == 1 {
             hist.entry(format!("g{}/rawbuf{}", g, t)).or_default().push(op.key());
         } else if kind.contains("wnaf_view") {
@@ -945,8 +947,8 @@ const FAMS: &[Fam] = &[
     Fam { name: "wnaf_view", cost: 300, gen: |r, _| if r.chance(1, 2) { gop("wnaf_view_b", &[r.below(2), rk(r)], r) } else { gop("wnaf_view_s", &[r.below(2), r.below(6)], r) } },
     Fam { name: "wnaf_raw", cost: 600, gen: |r, c| gop("wnaf_raw", &[r.below(6), rk(r), r.range(c.min_window, c.max_window) - 2, r.below(2)], r) },
     Fam { name: "rec", cost: 1, gen: |r, _| if r.chance(1, 2) { gop("rec_scalar", &[r.below(nsc())], r) } else { gop("rec_num", &[r.below(4), (r.next() >> r.below(64)) as usize], r) } },
-    Fam { name: "pre3", cost: 150, gen: |r, _| if r.chance(1, 3) { gop("pre3", &[r.below(6)], r) } else { gop("mul3", &[r.below(6), rk(r)], r) } },
-    Fam { name: "pre256", cost: 400, gen: |r, c| if c.with_256 && r.chance(5, 6) { gop("mul256", &[r.below(6), rk(r)], r) } else { gop("pre256", &[r.below(6)], r) } },
+    Fam { name: "pre3", cost: 150, gen: |r, _| match r.below(6) { 0 => gop("pre3", &[r.below(6)], r), 1 | 2 => gop("pre3_reuse", &[r.below(6), rk(r)], r), _ => gop("mul3", &[r.below(6), rk(r)], r) } },
+    Fam { name: "pre256", cost: 400, gen: |r, c| if c.with_256 && r.chance(4, 6) { gop("mul256", &[r.below(6), rk(r)], r) } else if r.chance(1, 2) { gop("pre256_reuse", &[r.below(6), rk(r)], r) } else { gop("pre256", &[r.below(6)], r) } },
     Fam {
         name: "msm",
         cost: 1500,
